@@ -44,7 +44,7 @@ Constructs(c) == IF c.twice THEN <<X(c, c.over), Text("+"), X(c, Complement(c.ov
 
 Host(c) ==
   LET xs == Constructs(c)
-      pre == <<SetS("a", IntE(1)), SetS("b", IntE(2)), SetS("wh", WithHash)>> \o (IF c.hostp THEN <<BlockS("p", <<Text("HP")>>)>> ELSE <<>>)
+      pre == <<SetS("a", IntE(1)), SetS("b", IntE(2)), SetS("v", StrE("o")), SetS("wh", WithHash)>> \o (IF c.hostp THEN <<BlockS("p", <<Text("HP")>>)>> ELSE <<>>)
       post == <<Text(";"), PrintS(NameE("a")), PrintS(NameE("n")), Text("|"), PrintS(AttrDot(NameE("wh"), "a")),
                 PrintS(AttrDot(NameE("wh"), "w")), PrintS(AttrDot(NameE("wh"), "n"))>>
   IN CASE c.site = "top" -> pre \o <<Text("H1")>> \o xs \o <<Text("H2")>> \o post
@@ -69,7 +69,7 @@ Templates(c) == ("h" :> Host(c)) @@ Targets
 VA(c) == IF HasWith(c.mode) THEN "9" ELSE IF IsOnly(c.mode) THEN "" ELSE IF c.site = "macro" THEN "A" ELSE "1"
 VB(c) == IF IsOnly(c.mode) THEN "" ELSE "2"
 VW(c) == IF HasWith(c.mode) THEN "3" ELSE ""
-VV(c, iter) == IF c.site = "loop" /\ ~IsOnly(c.mode) THEN ToString(iter) ELSE ""
+VV(c, iter) == IF IsOnly(c.mode) THEN "" ELSE IF c.site = "loop" THEN ToString(iter) ELSE "o"     \* the loop variable shadows the host's v
 Has(ov, b) == \E q \in 1..Len(ov) : OName(ov[q]) = b
 ParOf(ov, b) == \E q \in 1..Len(ov) : OName(ov[q]) = b /\ OPar(ov[q])
 Blk(c, ov, b, base) ==      \* block b of the embedded/included target whose own version renders `base`
